@@ -17,6 +17,11 @@ hint = {
     "6": "Think like a refactoring gone subtly wrong: a helper extracted and called once too often or too seldom, a loop bound or comparison changed in a rarely hit branch, a cache/memo that is not invalidated, a moved-from or stale value reused, a default argument changed, the order of two independent-looking statements swapped, an equality replaced by a prefix/hash/partial comparison. The slip must sit in code the property is anchored in (or a helper it depends on) and must need a specific multi-step history or input to show.",
     "2": "Prefer a DIFFERENT kind of change than the most obvious one: e.g. two cooperating sites that each look fine alone, a special case taken only for an unusual input/configuration, a lifetime/ownership slip, a wrong default, an early return on a rare path.",
 }.get(n, "")
+if len(sys.argv) > 3:
+    # wave 7+: pin the change to anchored files that no earlier seed touched (the list comes from the property's own anchors)
+    hint = ("Your change MUST be made in one of these anchored files (the others have been explored enough already): "
+            + ", ".join(sys.argv[3].split(",")) + ". Read that file's role in the property carefully first; the slip must break the "
+            "statement through behaviour that file is responsible for, needing a specific input, configuration, history or interleaving to show.")
 print("""You are helping to evaluate a verification effort for the C++ library opentelemetry-cpp. Your job is to act as a careless-but-plausible maintainer: introduce ONE realistic defect into the library that breaks a given semantic property, yet still compiles and passes the library's existing test suite, and to prove with a demonstration that the defect is real.
 
 Your own scratch checkout (a git worktree; work ONLY inside it, never touch /repo or /verif, never read /verif): %(wt)s
